@@ -48,6 +48,7 @@ type input struct {
 }
 
 type config struct {
+	GoPlain bool // Go without the optional methods (intersections are refused by some of their templates)
 	Inputs  []input
 	Langs   []string
 	Passes  string // file name under passes/ ("" = none)
@@ -77,6 +78,10 @@ func (c config) yaml(dir string) string {
 	}
 	b.WriteString("output:\n  directory: './out/%l'\n  types: true\n  builders: true\n  converters: true\n  api_reference: true\n  languages:\n")
 	for _, l := range c.Langs {
+		if l == "go" && c.GoPlain {
+			b.WriteString("    - go: {package_root: gen}\n")
+			continue
+		}
 		b.WriteString("    - " + langSnippets[l] + "\n")
 	}
 	return b.String()
@@ -154,6 +159,18 @@ func partESpecs(thorough bool) []irgen.SchemaSpec {
 	}
 	for _, t := range irgen.Types(irgen.Config{Depth: depth, Decorate: thorough}) {
 		specs = append(specs, irgen.WithField(t, false))
+	}
+	// allOf compositions with inline structs (optional fields, inline enums, nested structs):
+	// the shapes whose copies the chains rewrite in place
+	inline := []irgen.Term{
+		irgen.Struct1("a", false, irgen.S("string")),
+		irgen.Struct1("a", false, irgen.Enum("str")),
+		irgen.Struct1("a", true, irgen.Struct1("b", false, irgen.S("int64"))),
+		irgen.Struct1("a", false, irgen.Disj(irgen.S("string"), irgen.Null())),
+	}
+	for _, in := range inline {
+		inter := irgen.Inter(irgen.Ref(irgen.Pkg+".S"), in)
+		specs = append(specs, irgen.WithRoot(inter), irgen.WithField(inter, true), irgen.WithField(inter, false), irgen.WithField(irgen.Array(inter), false))
 	}
 	return specs
 }
@@ -525,6 +542,7 @@ func seedConfigs(thorough bool) []seedCfg {
 		{"two-packages", config{Inputs: []input{{"jsonschema", "a.json", "alpha", ""}, {"jsonschema", "b.json", "beta", ""}}}},
 		{"passes+veneers", config{Inputs: []input{{"jsonschema", "a.json", "alpha", ""}, {"jsonschema", "b.json", "beta", ""}}, Passes: "common.yaml", Veneers: true}},
 		{"openapi", config{Inputs: []input{{"openapi", "api.json", "api", ""}}}},
+		{"allof", config{GoPlain: true, Inputs: []input{{"jsonschema", "i.json", "inter", ""}}}},
 	}
 	return s
 }
